@@ -4,6 +4,7 @@ import JominiModel.Props.C10
 #print axioms Jomini.Props.C10.C10_bool_leaf
 #print axioms Jomini.Props.C10.C10_decimal_reads_back
 #print axioms Jomini.Props.C10.C10_uint_leaf
+#print axioms Jomini.Props.C10.C10_int_leaf
 #print axioms Jomini.Props.C10.C10_string_leaf
 #print axioms Jomini.Props.C10.C10_key_token
 #print axioms Jomini.Props.C10.C10_rgb_head
